@@ -40,6 +40,9 @@ declare -A ALSO=(
   [C15-last-parameter-mutator-wins]="C03"
   [C04-adderror-returns-early-on-done-context]="C06"
   [C06-deferred-group-decrements-own-pending]="C13"
+  [C06-list-element-wg-done-before-recover]="C04"
+  [C07-apq-registered-hash-replaces-request-text]="C15"
+  [C05-ws-pongonly-goroutine-bound-to-connection-context]="C11"
   [C08-followschema-subscription-buffer-never-reset]="C04"
   [C02-query-cached-before-validation]="C03"
   [C13-multipart-queue-lock-split-backing-array-reuse]="C12"
